@@ -408,6 +408,78 @@ F45_REPLAY = dict(kind='lay', source='import self.std as user;\nprint(user.mine)
                   expect_stdout='1\n3\n')
 
 
+F75_REPLAY = dict(kind='repl', stdin='import self.syn;\nimport self.syn as again;\nprint(again);\nprint("end");\n', files={'syn.lay': 'export let x = ;\n'},
+                  bad_re=r'<syn |<module|Pointer', note='the second import of a module that failed to compile must fail again, not bind an empty module object')
+F76_REPLAY = dict(kind='lay', source='import self.util;\nimport std.util as u2;\nprint(u2.v);\n', files={'util.lay': 'print("util body");\nexport let v = 1;\n'},
+                  expect_stdout='util body\n', bad_exit=[0], note='there is no std.util: the import must fail instead of loading ./util.lay a second time')
+
+
+@obligation('C17.K2.only_own_package_loads_files', 'C17', programs=('vm',))
+def k2_own_package(res, tier):
+    """Vm::import_module from MIR with the package table and Package::import summarised (the package exists, the module is missing in
+    it): the file loader is asked only when the package is the program's own (`self`) — a missing module of any other package (std) is
+    not found, it is never looked up in the program's directory"""
+    P = get_program('vm')
+    e = Engine(P, loop_bound=4, timeout_s=120, max_depth=50)
+    W = VmWorld(e, P)
+    W.havoc_objects(e)
+    install_gc_refs(e, exclude=('Fiber',))
+    f = P.lookup('vm::Vm::import_module')
+    res.bounds = {'package': 'any existing package', 'module': 'missing in it'}
+    res.assumptions = ['the package exists and answers ModuleDoesNotExist (the other answers are decided by C17.K2.op_import)']
+    ir = P.enum_def('vm::source_loader::ImportResult') or P.enum_def('ImportResult')
+    ie = P.enum_def('laythe_core::module::ImportError') or P.enum_def('ImportError')
+    RESd = P.enum_def('Result')
+
+    def m_get(e_, a, c):
+        oty = norm_ty(c.dest_ty) if c.dest_ty else 'Option'
+        return e_.mk_option(e_, oty, Ref(Cell(e_.materialise('laythe_core::Ref<laythe_core::module::Package>', NameBacking('the_package')))))
+    e.model(r'^(laythe_core::)?(object::)?(map::)?Map::get$', m_get)
+    e.model(r'^(std::option::|core::option::)?Option::cloned$', lambda e_, a, c: e_.mk_option(e_, norm_ty(c.dest_ty), a[0].field(e_, 'Some', 0, None).get(e_).cell.get(e_)) if isinstance(a[0], EnumV) and a[0].tag == 1 else NotImplemented)
+
+    def m_pkg_import(e_, a, c):
+        oty = norm_ty(c.dest_ty) if c.dest_ty else 'Result'
+        err = EnumV(ie.name, ie.vindex['ModuleDoesNotExist'], None, None, ie)
+        return EnumV(oty, 1, {'Err': {0: Cell(err)}}, None, RESd)
+    e.model(r'^(laythe_core::)?(module::)?(package::)?Package::import$', m_pkg_import)
+
+    def m_load(e_, a, c):
+        e_.path_state['file_loader_asked'] = True
+        return EnumV(ir.name, ir.vindex['NotFound'], None, None, ir)
+    e.model(r'^(vm::)?Vm::load_missing_module$', m_load)
+
+    def m_str_eq(e_, a, c):
+        b = e_.fork_bool(z3.Bool('package_is_self'))
+        e_.path_state['compared'] = bool(b)
+        return bool(b) if c.norm.endswith('eq') else (not bool(b))
+    e.model(r'^core::str::traits::<impl (std::cmp::|core::cmp::)?PartialEq for str>::(eq|ne)$', m_str_eq)
+    e.model(r'^<&?str as (std::cmp::|core::cmp::)?PartialEq(<.*>)?>::(eq|ne)$', m_str_eq)
+    e.model(r'^<(laythe_core::)?(object::)?(\w+::)*LyStr as (std::cmp::|core::cmp::)?PartialEq<.*>>::(eq|ne)$', m_str_eq)
+    e.allow_havoc(r'^(laythe_core::)?(module::)?(import::)?Import::\w+$', r'^<.* as (std::clone::|core::clone::)?Clone>::clone$',
+                  r'^<(laythe_core::)?(object::)?(\w+::)*LyStr as (std::ops::|core::ops::)?Deref>::deref$')
+
+    def path(e):
+        st = W.fresh_state(e)
+        imp = e.materialise('laythe_core::Ref<laythe_core::module::Import>', NameBacking('import'))
+        e.call(f, [Ref(st.vm_cell), imp])
+        asked = e.path_state.get('file_loader_asked', False)
+        own = e.path_state.get('compared')            # None: the package name was never compared with `self`
+        if asked:
+            e.check(own is True, 'import_module: the file loader is asked only for a module of the program\'s own package', {'package compared with self': own})
+        return {'file loader asked': asked, 'package is self': own}
+    results = e.explore(path)
+    for r in results:
+        for lab, ok, info in list(r.checks):
+            if not ok:
+                res.fail('C17.K2:a missing module of another package is loaded from the program directory',
+                         'import_module hands every missing module to the file loader, which resolves against the program\'s directory whatever the package: `import std.util` '
+                         'loads ./util.lay (a second, independent module; its body runs again)', info, replay=F76_REPLAY)
+                r.checks.remove((lab, ok, info))
+        if r.kind in ('oob', 'unreachable', 'ub', 'diverge', 'depth', 'panic'):
+            res.fail(f'C17.K2:import_module:{r.kind}', f'import_module: path ends in {r.kind}: {str(r.info)[:200]}', {'path': str(r.info)})
+    summarize_paths(res, e, results, lambda r: r.info if isinstance(r.info, dict) else None, key_prefix='C17.K2:import_module:', unwind_ok=False)
+
+
 @obligation('C17.K2.load_keeps_packages', 'C17', programs=('vm',))
 def k2_load_keeps_packages(res, tier):
     """Vm::load_missing_module (a module file is read, registered under its parent module and compiled): the table of packages is the
@@ -435,7 +507,10 @@ def k2_load_keeps_packages(res, tier):
     e.allow_havoc(r'^(laythe_core::)?(utils::)?IdEmitter::emit$', r'^(codespan_reporting::)?(term::)?emit$')
     # the parent has no module of that name: that is why it is being loaded (find_missing_module, C17.K1)
     RESd = P.enum_def('Result')
-    e.model(r'^(laythe_core::)?(module::)?Module::insert_module$', lambda e_, a, c: EnumV(norm_ty(c.dest_ty) if c.dest_ty else 'Result', 0, {'Ok': {0: Cell(UNIT)}}, None, RESd))
+    def m_insert_module(e_, a, c):
+        e_.path_state.setdefault('module_inserts', []).append(a[1])
+        return EnumV(norm_ty(c.dest_ty) if c.dest_ty else 'Result', 0, {'Ok': {0: Cell(UNIT)}}, None, RESd)
+    e.model(r'^(laythe_core::)?(module::)?Module::insert_module$', m_insert_module)
 
     def m_pk_insert(e_, a, c):
         e_.path_state.setdefault('package_inserts', []).append(a[1])
@@ -446,14 +521,22 @@ def k2_load_keeps_packages(res, tier):
         st = W.fresh_state(e)
         pkg = e.materialise('laythe_core::Ref<laythe_core::module::Package>', NameBacking('existing_package'))
         imp = e.materialise('laythe_core::Ref<laythe_core::module::Import>', NameBacking('import'))
+        r = None
         try:
-            e.call(f, [Ref(st.vm_cell), pkg, imp])
+            r = e.call(f, [Ref(st.vm_cell), pkg, imp])
         except PathEnd as pe:
             if pe.kind not in ('vm_error', 'vm_exit', 'internal_error'):
                 raise
         ins = e.path_state.get('package_inserts', [])
         e.check(not ins, 'loading a module file does not add or replace a package', {'inserts': len(ins)})
-        return {'package_inserts': len(ins)}
+        outcome = r.variant_name() if isinstance(r, EnumV) and isinstance(r.tag, int) else None
+        mins = e.path_state.get('module_inserts', [])
+        if outcome in ('CompileError', 'NotFound'):
+            # a module whose file is missing or does not compile never ran: a later import must not find it as a loaded module
+            e.check(not mins, 'a module that was not found or did not compile is not registered under its parent', {'outcome': outcome})
+        elif outcome == 'Compiled':
+            e.check(len(mins) == 1, 'a module that compiled is registered under its parent once (before its body runs: circular imports find it)')
+        return {'package_inserts': len(ins), 'outcome': outcome}
     results = e.explore(path)
     for r in results:
         for lab, ok, info in list(r.checks):
@@ -461,6 +544,11 @@ def k2_load_keeps_packages(res, tier):
                 res.fail('C17.K2:a loaded module file is registered as a package under its bare name',
                          'Vm::module inserts every module it creates into the package table: a user file std.lay imported as self.std replaces the std package and every later '
                          'import of std.* fails (and `import a` works after `import self.a`)', info, replay=F45_REPLAY)
+                r.checks.remove((lab, ok, info))
+            elif not ok and 'not registered under its parent' in lab:
+                res.fail('C17.K2:a module that did not compile stays registered under its parent',
+                         'load_missing_module registers the module under its parent before it compiles it and leaves it there when the compilation fails: the next import of the '
+                         'same path (interactive prompt) finds a loaded module whose body never ran and binds an empty module object', info, replay=F75_REPLAY)
                 r.checks.remove((lab, ok, info))
         if r.kind in ('oob', 'unreachable', 'ub', 'diverge', 'depth'):
             res.fail(f'C17.K2:load_missing_module:{r.kind}', f'load_missing_module: path ends in {r.kind}: {str(r.info)[:200]}', {'path': str(r.info)})
